@@ -18,7 +18,7 @@ import (
 // C05: rejection at the first offending frame.
 
 func isRejection(err error) bool {
-	if errors.Is(err, wsutil.ErrFrameTooLarge) {
+	if errors.Is(err, wsutil.ErrFrameTooLarge) || errors.Is(err, ws.ErrHeaderLengthMSB) {
 		return true
 	}
 	var pe ws.ProtocolError
@@ -76,7 +76,7 @@ func C05(r *eng.Run) {
 		kinds = append(kinds, "rsv")
 	}
 	if cfg.App == AppReader {
-		kinds = append(kinds, "oversize", "oversize", "oversize_ctrl")
+		kinds = append(kinds, "oversize", "oversize", "oversize_ctrl", "oversize_msb")
 	}
 	kind := kinds[r.T.Int(sim.LFault, len(kinds))]
 	switch kind {
@@ -134,6 +134,18 @@ func C05(r *eng.Run) {
 		payLen = int(lo) + 1 + r.T.Int(sim.LLen, 125-int(lo))
 		cfg.MaxFrameSize = lo + int64(r.T.Int(sim.LSize, payLen-int(lo)))
 		bad.Op, bad.Fin = []byte{ref.OpPing, ref.OpPong}[r.T.Int(sim.LOp, 2)], true
+	case "oversize_msb":
+		// A frame announcing 2^63+N bytes (64-bit form, top bit set) with a
+		// limit that N alone would pass.
+		var maxBefore int64
+		for _, f := range s.Frames[:k] {
+			if int64(len(f.Payload)) > maxBefore {
+				maxBefore = int64(len(f.Payload))
+			}
+		}
+		cfg.MaxFrameSize = maxBefore + 1 + int64(r.T.Int(sim.LSize, 64))
+		payLen = r.T.Int(sim.LLen, int(minInt(int(cfg.MaxFrameSize), 60))+1)
+		bad.LenMSB = true
 	case "oversize":
 		var maxBefore int64
 		for _, f := range s.Frames[:k] {
@@ -156,7 +168,7 @@ func C05(r *eng.Run) {
 		bad.Payload[i] = 0xEE // marker bytes: must never be delivered
 	}
 	broken := ref.Broken(recvState, bad.Op, bad.Fin, bad.Rsv, bad.Masked, int64(payLen))
-	if kind == "oversize" || kind == "oversize_ctrl" {
+	if kind == "oversize" || kind == "oversize_ctrl" || kind == "oversize_msb" {
 		broken = append(broken, "max_frame_size")
 	}
 	if cfg.Extended {
@@ -181,7 +193,7 @@ func C05(r *eng.Run) {
 	if cfg.App == AppReader {
 		cfg.SkipEmpty = r.T.Bool(sim.LCfg)
 		cfg.ProbeAfterError = !fragmented && r.T.Bool(sim.LCfg)
-		if (kind == "oversize" || kind == "oversize_ctrl") && r.T.Chance(sim.LCfg, 1, 3) {
+		if (kind == "oversize" || kind == "oversize_ctrl" || kind == "oversize_msb") && r.T.Chance(sim.LCfg, 1, 3) {
 			// The size limit is independent of the header check.
 			cfg.SkipCheck = true
 			r.Probe("oversize_with_header_check_skipped")
@@ -410,7 +422,11 @@ func C07(r *eng.Run) {
 	}
 	cfg := drawReadCfg(r, []int{AppReader, AppReader, AppReadMessage, AppReadData})
 	cfg.CheckUTF8 = true
-	cfg.Extended = false
+	// cfg.Extended stays as drawn: a negotiated extension (no RSV bits on these
+	// frames) changes nothing about what is text.
+	if cfg.Extended {
+		r.Probe("utf8_check_in_extended_state")
+	}
 	cfg.OnCont = false
 	if cfg.App == AppReadData && cfg.Variant == 3 {
 		cfg.Variant = 2
@@ -529,16 +545,32 @@ func c07Tolerant(r *eng.Run, cfg ReadCfg, s *Stream, p *Pipe) {
 // c07Standalone drives wsutil.UTF8Reader over a chunked source.
 func c07Standalone(r *eng.Run) {
 	r.SetEntry("UTF8Reader")
-	data := drawText(r)
-	p := NewPipe(r, data)
-	p.SegMode = DrawSeg(r)
-	if p.SegMode == SegBoundary {
-		p.SegMode = SegTiny
+	lives := 1
+	if r.T.Chance(sim.LHist, 1, 3) {
+		lives = 2 + r.T.Int(sim.LHist, 2) // the same reader Reset onto further sources, whatever the earlier verdicts
+		r.Probe("utf8reader_reset_between_streams")
 	}
-	u := wsutil.NewUTF8Reader(p)
+	var u *wsutil.UTF8Reader
+	for life := 0; life < lives; life++ {
+		data := drawText(r)
+		p := NewPipe(r, data)
+		p.SegMode = DrawSeg(r)
+		if p.SegMode == SegBoundary {
+			p.SegMode = SegTiny
+		}
+		if u == nil {
+			u = wsutil.NewUTF8Reader(p)
+		} else {
+			u.Reset(p)
+		}
+		c07Judge(r, u, p, data, life)
+	}
+}
+
+func c07Judge(r *eng.Run, u *wsutil.UTF8Reader, p *Pipe, data []byte, life int) {
 	buf := make([]byte, drawBuf(r))
 	valid := utf8.Valid(data)
-	r.Note("C07 UTF8Reader seg=%d buf=%d data=%x valid=%v", p.SegMode, len(buf), data, valid)
+	r.Note("C07 UTF8Reader life=%d seg=%d buf=%d data=%x valid=%v", life, p.SegMode, len(buf), data, valid)
 	var got []byte
 	for {
 		n, err := u.Read(buf)
@@ -549,10 +581,10 @@ func c07Standalone(r *eng.Run) {
 		if err == wsutil.ErrInvalidUTF8 {
 			r.Res.Nontrivial = true
 			if valid {
-				r.Failf("valid_text_rejected", "UTF8Reader rejected valid UTF-8 %x after %d bytes", data, p.Consumed())
+				r.Failf("valid_text_rejected", "UTF8Reader (life %d) rejected valid UTF-8 %x after %d bytes", life, data, p.Consumed())
 			}
 			if validPrefix(data[:p.Consumed()]) {
-				r.Failf("premature_reject", "UTF8Reader rejected after consuming %x which is still a valid prefix", data[:p.Consumed()])
+				r.Failf("premature_reject", "UTF8Reader (life %d) rejected after consuming %x which is still a valid prefix", life, data[:p.Consumed()])
 			}
 			if len(got) > len(data) || !bytes.Equal(got, data[:len(got)]) {
 				r.Failf("wrong_payload", "UTF8Reader handed out bytes that are not a prefix of the source")
@@ -570,6 +602,6 @@ func c07Standalone(r *eng.Run) {
 		r.Failf("wrong_payload", "UTF8Reader altered the bytes%s", firstDiff(got, data))
 	}
 	if u.Valid() != valid {
-		r.Failf("validity_mismatch", "UTF8Reader.Valid()=%v after draining %x, utf8.Valid=%v", u.Valid(), data, valid)
+		r.Failf("validity_mismatch", "UTF8Reader.Valid()=%v (life %d) after draining %x, utf8.Valid=%v", u.Valid(), life, data, valid)
 	}
 }
